@@ -33,20 +33,24 @@ MatrixOf(m) == IF Len(m) = 0 THEN Identity
                     IF g = 0 THEN << <<0, 0, 0>>, <<0, 0, 0>>, <<0, 0, 0>> >>
                     ELSE [i \in 1..3 |-> [j \in 1..3 |-> m[3 * (i - 1) + j] \div g]]
 
+(* linear gradients may use a finer lattice than half pixels: unit u = gcd of the four coordinates and 32768 *)
+LinUnit(g) == Gcd(Gcd(Gcd(g[1], g[2]), Gcd(g[3], g[4])), 32768)
 GeomOK(kind, g) ==
-    CASE kind = "linear"  -> Len(g) = 4 /\ \A i \in 1..4 : Exact(g[i], 32768)
+    CASE kind = "linear"  -> Len(g) = 4 /\ LinUnit(g) >= 8
       [] kind = "radial"  -> Len(g) = 6 /\ \A i \in 1..6 : Exact(g[i], 32768)
       [] kind = "conical" -> Len(g) = 3 /\ Exact(g[1], 32768) /\ Exact(g[2], 32768) /\ Exact(g[3], 65536)
       [] OTHER -> FALSE
 GeomOf(kind, g) ==
     IF kind = "conical" THEN <<Div(g[1], 32768), Div(g[2], 32768), Div(g[3], 65536)>>
+    ELSE IF kind = "linear" THEN [i \in 1..4 |-> Div(g[i], LinUnit(g))]
     ELSE [i \in 1..Len(g) |-> Div(g[i], 32768)]
+HuOf(kind, g) == IF kind = "linear" THEN 32768 \div LinUnit(g) ELSE 1
 
 StopsOK(ss) == \A n \in 1..Len(ss) : \A k \in 2..5 : Exact(ss[n][k], 257)
 StopsOf(ss) == [n \in 1..Len(ss) |-> [x |-> ss[n][1],
                                         c |-> <<Div(ss[n][2], 257), Div(ss[n][3], 257), Div(ss[n][4], 257), Div(ss[n][5], 257)>>]]
 
-Dummy == [kind |-> "none", g |-> <<>>, stops |-> <<>>, repeat |-> "NONE", m |-> Identity, unit |-> 1]
+Dummy == [kind |-> "none", g |-> <<>>, hu |-> 1, stops |-> <<>>, repeat |-> "NONE", m |-> Identity, unit |-> 1]
 
 TReset ==
     /\ Is("Reset")
@@ -58,7 +62,7 @@ TBegin ==
     /\ IF Ev.claim
        THEN /\ GeomOK(Ev.kind, Ev.g) /\ StopsOK(Ev.stops)
             /\ Ev.repeat \in {"NONE", "NORMAL", "PAD", "REFLECT"}
-            /\ GBegin([kind |-> Ev.kind, g |-> GeomOf(Ev.kind, Ev.g), stops |-> StopsOf(Ev.stops),
+            /\ GBegin([kind |-> Ev.kind, g |-> GeomOf(Ev.kind, Ev.g), hu |-> HuOf(Ev.kind, Ev.g), stops |-> StopsOf(Ev.stops),
                        repeat |-> Ev.repeat, m |-> MatrixOf(Ev.m), unit |-> IF Ev.wide THEN 256 ELSE 1],
                       TRUE, Ev.dh)
        ELSE GBegin(Dummy, FALSE, 0)
